@@ -292,6 +292,14 @@ def view_facts(df_tree, ses_tree):
     for needle in ("quote_preserving_alias_or_name(", "in self.display_name_mapping", "'case_sensitive': True"):
         if needle not in sd:
             raise Untranslatable(f"_set_display_names: `{needle}` not found")
+    if "args.get('order')" in sd:
+        for needle in ("not key.table", "renamed.get(quote_preserving_alias_or_name(key))", "key.set('this', display_name_identifier.copy())",
+                       "renamed[column_name] = display_name_identifier"):
+            if needle not in sd:
+                raise Untranslatable(f"_set_display_names: rewrites ORDER BY keys in a shape I do not know (`{needle}` missing)")
+        out["orderby_follows_display"] = True
+    else:
+        out["orderby_follows_display"] = False
     ge = ast.unparse(py2v.find_method(df_tree, "BaseDataFrame", "_get_expressions"))
     out["v_sql_map"] = "self._set_display_names(select_expression)" in ge or "._set_display_names(select_expression)" in ge
     for m in ("collect", "_collect", "toPandas"):
@@ -468,7 +476,7 @@ def generate(repo: str):
     L.append("Definition gen_cfg : cfg := mkCfg gen_rec_of gen_resel_of gen_kind_of "
              f"wrap_needed_df new_kind_df {b(w_df['init_wraps'])} wrap_needed_group new_kind_group {b(w_gr['init_wraps'])} "
              f"{('(Some ' + gkind + ')') if gkind else 'None'} {b(col_ident)} {b(alias_raw)} {b(str_raw)} {b(join_merges)} {b(join_key_bare)} {b(views['schema_key_spark'])} "
-             f"{b(orderby_identify)} {b(groupby_unq)} "
+             f"{b(orderby_identify)} {b(groupby_unq)} {b(views['orderby_follows_display'])} "
              f"{b(views['v_columns_map'])} {b(views['v_sql_map'])} {b(views['v_schema_map'])} {b(views['v_collect_case'])}.")
     facts = [
         {"name": "rec_of", "from": "dataframe.py/session.py/group.py: calls of _update_display_name_mapping", "value": rec},
